@@ -33,7 +33,7 @@ type Options struct {
 }
 
 // DefaultOpaque is what carries no state of the structure under test: locks and wait groups (real or shim).
-var DefaultOpaque = []string{"sync.Mutex", "sync.RWMutex", "sync.WaitGroup", "sync.Once", "vsync.Mutex", "vsync.RWMutex", "vsync.WaitGroup", "vsync.Once", "sync.noCopy", "atomic.noCopy"}
+var DefaultOpaque = []string{"sync.Mutex", "sync.RWMutex", "sync.WaitGroup", "sync.Once", "vsync.Mutex", "vsync.RWMutex", "vsync.WaitGroup", "vsync.Once", "sync.noCopy", "atomic.noCopy", "sync.Pool"}
 
 type dumper struct {
 	b     strings.Builder
@@ -174,10 +174,10 @@ func (d *dumper) walk(v reflect.Value) {
 			for i := range bs {
 				bs[i] = byte(v.Index(i).Uint())
 			}
-			fmt.Fprintf(&d.b, "b%q/%d", bs, v.Cap())
+			fmt.Fprintf(&d.b, "b%q", bs)
 			return
 		}
-		fmt.Fprintf(&d.b, "[%d/%d:", v.Len(), v.Cap())
+		fmt.Fprintf(&d.b, "[%d:", v.Len()) // (the capacity is an allocation detail, not state)
 		for i := 0; i < v.Len(); i++ {
 			d.walk(v.Index(i))
 			d.b.WriteString(",")
